@@ -436,7 +436,7 @@ Open Scope string_scope.
 Definition show_pval (v : pval) : string :=
   match v with
   | PJ j => show_jvalue j
-  | PDt l (Some o) => append "@A" (append (show_Z (l - o)) (append "/" (show_Z o)))
+  | PDt l (Some o) => append "@A" (show_Z (l - o))       (* the UTC instant; which offset carries it is not compared *)
   | PDt l None => append "@N" (show_Z l)
   | PDate y m d => append "@D" (append (show_Z y) (append "-" (append (show_Z m) (append "-" (show_Z d)))))
   end.
